@@ -643,16 +643,23 @@ theorem runE_fst (ops : List WOp) : ∀ (w : WState) (g : Ghost), (w.runE g ops)
     rw [ih, stepE_fst]
     rfl
 
-/-- the banks of the world keep their places and their keys -/
-theorem stepE_bank (w : WState) (op : WOp) (j : Nat) (x : WBank) (hx : w.banks[j]? = some x) :
-    ∃ x', (w.stepE op).1.banks[j]? = some x' ∧ x'.v.key = x.v.key := by
-  rw [stepE_fst]
+/-- what no instruction of the machine changes about a bank: its key, group, vault, rate configuration, fee and transfer-fee
+    parameters, risk parameters and oracle; its operational state stays as it is or becomes KilledByBankruptcy -/
+def SameCfg (x x' : WBank) : Prop :=
+  x'.v.key = x.v.key ∧ x'.v.group = x.v.group ∧ x'.v.liquidityVault = x.v.liquidityVault ∧ x'.v.ir = x.v.ir ∧
+  x'.v.origFee = x.v.origFee ∧ x'.v.tfBps = x.v.tfBps ∧ x'.v.tfMax = x.v.tfMax ∧ x'.v.weightInitZero = x.v.weightInitZero ∧
+  x'.risk = x.risk ∧ x'.feed = x.feed ∧ (x'.v.opState = x.v.opState ∨ x'.v.opState = 3)
+
+theorem sameCfg_refl (x : WBank) : SameCfg x x := ⟨rfl, rfl, rfl, rfl, rfl, rfl, rfl, rfl, rfl, rfl, Or.inl rfl⟩
+
+theorem step_bank_frame (w : WState) (op : WOp) (j : Nat) (x : WBank) (hx : w.banks[j]? = some x) :
+    ∃ x', (w.step op).banks[j]? = some x' ∧ SameCfg x x' := by
   have hlen : j < w.banks.length := by
     rcases Nat.lt_or_ge j w.banks.length with h | h
     · exact h
     · rw [List.getElem?_eq_none h] at hx; cases hx
-  have one : ∀ (bi : Nat) (b b' : WBank), w.banks[bi]? = some b → b'.v.key = b.v.key →
-      ∃ x', (w.banks.set bi b')[j]? = some x' ∧ x'.v.key = x.v.key := by
+  have one : ∀ (bi : Nat) (b b' : WBank), w.banks[bi]? = some b → SameCfg b b' →
+      ∃ x', (w.banks.set bi b')[j]? = some x' ∧ SameCfg x x' := by
     intro bi b b' hb hk
     rw [List.getElem?_set]
     by_cases h : bi = j
@@ -660,86 +667,93 @@ theorem stepE_bank (w : WState) (op : WOp) (j : Nat) (x : WBank) (hx : w.banks[j
       rw [hb] at hx; injection hx with hx; subst hx
       simp only [if_true, hlen]
       exact ⟨b', rfl, hk⟩
-    · simp only [h, if_false]; exact ⟨x, hx, rfl⟩
+    · simp only [h, if_false]; exact ⟨x, hx, sameCfg_refl x⟩
   cases op with
-  | tick dt => exact ⟨x, hx, rfl⟩
+  | tick dt => exact ⟨x, hx, sameCfg_refl x⟩
   | transfer ai signer newKey newAuth ok =>
     simp only [WState.step]
     split
-    · exact ⟨x, hx, rfl⟩
+    · exact ⟨x, hx, sameCfg_refl x⟩
     · split
       · split
-        · exact ⟨x, hx, rfl⟩
-        · exact ⟨x, hx, rfl⟩
-      · exact ⟨x, hx, rfl⟩
+        · exact ⟨x, hx, sameCfg_refl x⟩
+        · exact ⟨x, hx, sameCfg_refl x⟩
+      · exact ⟨x, hx, sameCfg_refl x⟩
   | accrue bi =>
     simp only [WState.step]
     split
     · rename_i b hb
       split
-      · exact one bi b _ hb rfl
-      · exact ⟨x, hx, rfl⟩
-    · exact ⟨x, hx, rfl⟩
+      · exact one bi b _ hb ⟨rfl, rfl, rfl, rfl, rfl, rfl, rfl, rfl, rfl, rfl, Or.inl rfl⟩
+      · exact ⟨x, hx, sameCfg_refl x⟩
+    · exact ⟨x, hx, sameCfg_refl x⟩
   | collect bi ok vault =>
     simp only [WState.step]
     split
     · rename_i b hb
       split
-      · exact one bi b _ hb rfl
-      · exact ⟨x, hx, rfl⟩
-    · exact ⟨x, hx, rfl⟩
+      · exact one bi b _ hb ⟨rfl, rfl, rfl, rfl, rfl, rfl, rfl, rfl, rfl, rfl, Or.inl rfl⟩
+      · exact ⟨x, hx, sameCfg_refl x⟩
+    · exact ⟨x, hx, sameCfg_refl x⟩
   | deposit ai bi signer amount upTo =>
     simp only [WState.step]
     split
     · rename_i a b ha hb
       split
-      · exact one bi b _ hb rfl
-      · exact ⟨x, hx, rfl⟩
-    · exact ⟨x, hx, rfl⟩
+      · exact one bi b _ hb ⟨rfl, rfl, rfl, rfl, rfl, rfl, rfl, rfl, rfl, rfl, Or.inl rfl⟩
+      · exact ⟨x, hx, sameCfg_refl x⟩
+    · exact ⟨x, hx, sameCfg_refl x⟩
   | borrow ai bi signer amount =>
     simp only [WState.step]
     split
     · rename_i a b ha hb
       split
-      · exact one bi b _ hb rfl
-      · exact ⟨x, hx, rfl⟩
-    · exact ⟨x, hx, rfl⟩
+      · exact one bi b _ hb ⟨rfl, rfl, rfl, rfl, rfl, rfl, rfl, rfl, rfl, rfl, Or.inl rfl⟩
+      · exact ⟨x, hx, sameCfg_refl x⟩
+    · exact ⟨x, hx, sameCfg_refl x⟩
   | withdraw ai bi signer amount all vault =>
     simp only [WState.step]
     split
     · rename_i a b ha hb
       split
-      · exact one bi b _ hb rfl
-      · exact ⟨x, hx, rfl⟩
-    · exact ⟨x, hx, rfl⟩
+      · exact one bi b _ hb ⟨rfl, rfl, rfl, rfl, rfl, rfl, rfl, rfl, rfl, rfl, Or.inl rfl⟩
+      · exact ⟨x, hx, sameCfg_refl x⟩
+    · exact ⟨x, hx, sameCfg_refl x⟩
   | repay ai bi signer amount all =>
     simp only [WState.step]
     split
     · rename_i a b ha hb
       split
-      · exact one bi b _ hb rfl
-      · exact ⟨x, hx, rfl⟩
-    · exact ⟨x, hx, rfl⟩
+      · exact one bi b _ hb ⟨rfl, rfl, rfl, rfl, rfl, rfl, rfl, rfl, rfl, rfl, Or.inl rfl⟩
+      · exact ⟨x, hx, sameCfg_refl x⟩
+    · exact ⟨x, hx, sameCfg_refl x⟩
   | close ai bi signer =>
     simp only [WState.step]
     split
     · rename_i a b ha hb
       split
-      · exact one bi b _ hb rfl
-      · exact ⟨x, hx, rfl⟩
-    · exact ⟨x, hx, rfl⟩
+      · exact one bi b _ hb ⟨rfl, rfl, rfl, rfl, rfl, rfl, rfl, rfl, rfl, rfl, Or.inl rfl⟩
+      · exact ⟨x, hx, sameCfg_refl x⟩
+    · exact ⟨x, hx, sameCfg_refl x⟩
   | bankruptcy ai bi signer available =>
     simp only [WState.step]
     split
     · rename_i a b ha hb
       split
-      · exact one bi b _ hb rfl
-      · exact ⟨x, hx, rfl⟩
-    · exact ⟨x, hx, rfl⟩
+      · rename_i o ho
+        obtain ⟨_, _, _, _, st, _, _, _, _, _, _, _, hop⟩ := bankruptcy_core2 ho
+        refine one bi b _ hb ⟨rfl, rfl, rfl, rfl, rfl, rfl, rfl, rfl, rfl, rfl, ?_⟩
+        simp only
+        rw [hop]
+        cases st.kill
+        · left; rfl
+        · right; rfl
+      · exact ⟨x, hx, sameCfg_refl x⟩
+    · exact ⟨x, hx, sameCfg_refl x⟩
   | liquidate qi ei abi lbi signer amount =>
     simp only [WState.step]
     split
-    · exact ⟨x, hx, rfl⟩
+    · exact ⟨x, hx, sameCfg_refl x⟩
     · split
       · rename_i lq le ab lb hq he hab hlb
         split
@@ -748,13 +762,20 @@ theorem stepE_bank (w : WState) (op : WOp) (j : Nat) (x : WBank) (hx : w.banks[j
           rw [commit2_getb hab hlb]
           by_cases h1 : lbi = j
           · subst h1; rw [hlb] at hx; injection hx with hx; subst hx
-            simp only [if_true]; exact ⟨_, rfl, rfl⟩
+            simp only [if_true]; exact ⟨_, rfl, ⟨rfl, rfl, rfl, rfl, rfl, rfl, rfl, rfl, rfl, rfl, Or.inl rfl⟩⟩
           · by_cases h2 : abi = j
             · subst h2; rw [hab] at hx; injection hx with hx; subst hx
-              simp only [h1, if_true, if_false]; exact ⟨_, rfl, rfl⟩
-            · simp only [h1, h2, if_false]; exact ⟨x, hx, rfl⟩
-        · exact ⟨x, hx, rfl⟩
-      · exact ⟨x, hx, rfl⟩
+              simp only [h1, if_true, if_false]; exact ⟨_, rfl, ⟨rfl, rfl, rfl, rfl, rfl, rfl, rfl, rfl, rfl, rfl, Or.inl rfl⟩⟩
+            · simp only [h1, h2, if_false]; exact ⟨x, hx, sameCfg_refl x⟩
+        · exact ⟨x, hx, sameCfg_refl x⟩
+      · exact ⟨x, hx, sameCfg_refl x⟩
+
+/-- the banks of the world keep their places and their keys -/
+theorem stepE_bank (w : WState) (op : WOp) (j : Nat) (x : WBank) (hx : w.banks[j]? = some x) :
+    ∃ x', (w.stepE op).1.banks[j]? = some x' ∧ x'.v.key = x.v.key := by
+  rw [stepE_fst]
+  obtain ⟨x', hx', h⟩ := step_bank_frame w op j x hx
+  exact ⟨x', hx', h.1⟩
 
 /-- **every history**: the invariant holds throughout, every bank keeps its place, and its potential at the end is at least
     its potential at the start -/
